@@ -1111,6 +1111,42 @@ func (c *Ctx) evalCall(e *Expr, env *Env) *Val {
 			return c.iteVal(lt.S, a, b)
 		}
 		return c.iteVal(lt.S, b, a)
+	case "outerresult":
+		// outerresult(i): inside the synthetic body of a range-over-func loop, the current
+		// content of the cell that holds the i-th result of the enclosing function (the body
+		// stores there what a `return` inside the loop hands back); these cells are captured
+		// variables without a name
+		if len(e.Args) != 1 || e.Args[0].Op != "num" || c.fn == nil {
+			c.specErr("outerresult(<result number>)")
+			return nil
+		}
+		want, _ := strconv.Atoi(e.Args[0].Name)
+		k := 0
+		for _, fv := range c.fn.FreeVars {
+			if fv.Name() != "" {
+				continue
+			}
+			if k == want {
+				pv := c.vals[fv]
+				pt, ok := fv.Type().Underlying().(*types.Pointer)
+				if pv == nil || !ok {
+					c.specErr("outerresult: cell not available")
+					return nil
+				}
+				st := env.st
+				if env.inOld {
+					st = env.old
+				}
+				save := c.inSpec
+				c.inSpec = true
+				v := c.load(pv, pt.Elem(), st)
+				c.inSpec = save
+				return v
+			}
+			k++
+		}
+		c.specErr("outerresult(%d): the function has no such result cell", want)
+		return nil
 	case "deref":
 		// deref(p): current content of the variable p points to (captured variables of closures)
 		x := arg(0)
